@@ -1,7 +1,8 @@
 ------------------------------- MODULE AppCache -------------------------------
 (***************************************************************************)
 (* The App Engine proxy's response cache (app/proxy.go, proxyHandler):     *)
-(* a GET that is answered 200 without a Cache-Control header is kept in    *)
+(* a GET that is answered 200 (not 206, 204, ...) without a Cache-Control   *)
+(* header is kept in                                                       *)
 (* memcache under (user, URL); a later GET of the same user for the same   *)
 (* URL may be answered from there without asking the backend.  Nothing     *)
 (* else is kept and nothing else is answered from the cache.  What C19     *)
